@@ -36,6 +36,8 @@ Judge(k) ==
   /\ Report(k, "C11.NonNegative", NonNegative')
   /\ IsStep(k) =>
      /\ Report(k, "C12.StillConvertible", (ln(k).ev \in Govern) => \A d \in Denoms : Convertible(d) => Convertible(d)')
+     (* a restart from the module's own export (contract addresses spelt in any accepted way) gives the same registry back *)
+     /\ Report(k, "C12.ReimportKeepsRegistry", ln(k).ev = "Reimport" => (ln(k).res = "ok" /\ pairs' = pairs /\ byErc20' = byErc20 /\ byDenom' = byDenom))
      /\ Report(k, "C12.RejectNoChange", (ln(k).ev \in Govern /\ ln(k).res # "ok") => Unchanged(k))
      /\ Report(k, "C11.RejectNoChange", (ln(k).ev \in {"ConvertCoin", "ConvertERC20"} /\ ln(k).res # "ok") => Unchanged(k))
      (* a pair is enabled or disabled only by its own toggle proposal: what the conversion gate reads is what governance set *)
@@ -71,6 +73,7 @@ C_Step(k) ==
     [] ln(k).ev = "Destroy"       -> DestroyEff(a.c)
     [] ln(k).ev = "ConvertCoin"   -> ConvertCoinEff(a.d, a.amt, a.recv) /\ ok = ConvertCoinOK(a.d, a.amt, a.recv)
     [] ln(k).ev = "ConvertERC20"  -> ConvertERC20Eff(a.c, a.d, a.amt, a.recv) /\ ok = ConvertERC20OK(a.c, a.d, a.amt, a.recv)
+    [] ln(k).ev = "Reimport"      -> ReimportEff(a.form) /\ ok
     [] OTHER -> FALSE
 Conform(k) == IsStep(k) => (C_Step(k) \/ PrintT(<<"DRIFT", k, ln(k).ev>>))
 TNext ==
